@@ -217,8 +217,8 @@ func ruleSetupFamily(c *Ctx, rule string, fns []*ssa.Function, v4 map[*ssa.Funct
 		}
 		ex.Run()
 		n := 0
-		for _, b := range fn.Blocks {
-			for _, in := range b.Instrs {
+		for _, in := range viewInstrs(fn) {
+			{
 				r, ok := sites[in]
 				if !ok {
 					continue
